@@ -17,7 +17,8 @@ EXPLANATION = (
     "decoders, overflow length nibble 15 on both sides; genotype allele coding constants agree on encoder, decoder and "
     "lazy view; (R3) 'unrepresentable ⇒ error': explicit panics reachable in the encoder closure are held against a "
     "triaged table; (R4) string-map lookups on decode are error exits on a missing index."
-    " (R5) reused destination: read_site / read_record_buf overwrite every column of the vcf RecordBuf they decode into; (R6) append-buffer discipline of the BCF header's text reader.")
+    " (R5) reused destination: read_site / read_record_buf overwrite every column of the vcf RecordBuf they decode into; (R6) append-buffer discipline of the BCF header's text reader."
+    " (R7) sibling guard agreement: the per-type copies of the FORMAT value decoders (Int8/Int16/Int32/Float, vector and scalar) reach their `push(None)` sites under the same edge-dominance guard signature.")
 ASSUMPTIONS = ["interval reasoning is dominance-based; per-sample padding and vector length logic are value-level"]
 NOT_DECIDED = ["full record equality, per-sample padding of unequal-length vectors, float bit patterns beyond the reserved-NaN constants"]
 
@@ -173,6 +174,22 @@ def run(ctx):
 
     ctx.rule("C10.R6", "A10 append-buffer discipline: the BCF header reader (VCF text) resets its line buffer before every appended line")
     a10.discipline_rule(ctx, "C10.R6", r"^<?noodles_bcf::", 2)
+
+    ctx.rule("C10.R7", "A7 sibling guard agreement: the per-type copies of the FORMAT value decoders (Int8/Int16/Int32/Float, scalar and "
+                       "vector) report a sample as missing under the same guards")
+    VAL = "noodles_bcf::record::codec::decoder::samples::values::"
+
+    def pushes_none(g, bi, blk):
+        t = blk["t"]
+        if t[0] != "call" or not (t[1].get("f") or "").endswith("Vec::<T, A>::push") or len(t[1]["args"]) < 2:
+            return False
+        l = C.op_local(t[1]["args"][1])
+        d = C.single_def(g, l) if l is not None else None
+        return d is not None and d[0] == "=" and d[3][0] == "agg" and d[3][2].endswith("option::Option") and d[3][3] == "None"
+    for fam, floor in ((r"read_(i8|i16|i32|f32)_array_values$", 4), (r"read_(i8|i16|i32|f32)_values$", 4)):
+        keys = sorted(k for k in fb.fns if k.startswith(VAL) and re.search(fam, k[len(VAL):]) and not fb.fns[k].is_closure)
+        ctx.floor("C10.R7", "sibling decoders matching " + fam, len(keys), floor)
+        a7.sibling_guard_agreement(ctx, "C10.R7", keys, pushes_none, "sample value is missing (push None)")
 
     ctx.rule("C10.R4", "string-map lookups on decode are error exits on a missing index")
     n = 0
